@@ -778,8 +778,13 @@ pixman_transform_from_pixman_f_transform (struct pixman_transform *        t,
 	    double d = ft->m[j][i];
 	    if (d < -32767.0 || d > 32767.0)
 		return FALSE;
-	    d = d * 65536.0 + 0.5;
-	    t->matrix[j][i] = (pixman_fixed_t) floor (d);
+	    /* Round to nearest, ties up.  floor (d * 65536.0 + 0.5) is not
+	     * that: the sum is rounded to double first, so the double just
+	     * below 0.5 / 65536 became 1 instead of 0.  The fraction below
+	     * is exact.
+	     */
+	    d = d * 65536.0;
+	    t->matrix[j][i] = (pixman_fixed_t) (d - floor (d) >= 0.5 ? floor (d) + 1 : floor (d));
 	}
     }
     
